@@ -458,6 +458,8 @@ def run(ck):
     ok, info = ck.lean_obligations("DS.Props.C18")
     tie_ok, tie_info = ck.source_tie("DS.Props.SrcLattice")  # the block is a supercell: same Lattice model as C15
     tie2_ok, tie2_info = ck.source_tie("DS.Props.SrcExpand")   # supercell: index list, image coordinates, new cell, guards
+    # findCenter / makeEllipsoid / makeSphere themselves: the model IS the transliteration of the current source
+    tie3_ok, tie3_info = ck.source_tie("DS.Props.SrcShape", groups=("shape",))
     rng = ck.rng
     quick = ck.tier == "quick"
     cap = 4 if quick else 6
@@ -625,6 +627,7 @@ def run(ck):
     ck.coverage["trusted_base"] += ["harness/c18.py oracle (plain numpy enumeration of lattice sites)", "compiled Lean model driver (DS.Expand.expandHandle)"]
     ck.tie_verdict(tie_ok, tie_info, "lattice.py")
     ck.tie_verdict(tie2_ok, tie2_info, "supercell_mod.py")
+    ck.tie_verdict(tie3_ok, tie3_info, "shapeutils.py findCenter / makeellipsoid.py makeEllipsoid, makeSphere")
     if not ok and not ck.violations:
         ck.fail("lean-build", "Lean obligations of C18 no longer check: %r" % (info["failed_modules"],),
                 {"kind": "proof-obligation", "theorem": info["failed_modules"], "errors": info["errors"]}, no_failing_input=True)
